@@ -46,16 +46,27 @@ pub struct Gen<'a> {
     /// registrations the program depends on (to be placed before the evaluation)
     pub regs: Vec<Op>,
     pub nodes: usize,
+    /// names that nested assignments (assignments used as expressions) may target
+    pub assign_names: Vec<String>,
     counter: usize,
     /// reach: which observable kinds were generated
     pub kinds_used: Vec<&'static str>,
 }
 
-const STRS: &[&str] = &["ab", "abc", "b", "", "xyz", "a"];
+const STRS: &[&str] = &["ab", "abc", "b", "", "xyz", "a", "a b", "John Smith"];
+/// canonical (normalised) fractional decimals
+const FRACS: &[&str] = &["0.5", "1.5", "2.25", "5.5", "0.1", "7.75", "3.2"];
 
 pub fn const_of(r: &mut Prng, ty: Ty) -> Val {
     match ty {
-        Ty::Int | Ty::Num => Val::int(r.range(0, 12)),
+        Ty::Int => Val::int(r.range(0, 12)),
+        Ty::Num => {
+            if r.chance(1, 2) {
+                Val::Num((*r.pick(FRACS)).to_string())
+            } else {
+                Val::int(r.range(0, 12))
+            }
+        }
         Ty::Bool => Val::Bool(r.chance(1, 2)),
         Ty::Str => Val::s(*r.pick(STRS)),
         Ty::ListInt => Val::List((0..r.usize(4)).map(|_| Val::int(r.range(0, 5))).collect()),
@@ -74,6 +85,7 @@ impl<'a> Gen<'a> {
                 (
                     k.clone(),
                     match v {
+                        Val::Num(s) if s.contains('.') => Ty::Num,
                         Val::Num(_) => Ty::Int,
                         Val::Bool(_) => Ty::Bool,
                         Val::Str(_) => Ty::Str,
@@ -85,7 +97,7 @@ impl<'a> Gen<'a> {
                 )
             })
             .collect();
-        Gen { r, case, knobs, slot, vars, regs: vec![], nodes: 0, counter: 0, kinds_used: vec![] }
+        Gen { r, case, knobs, slot, vars, regs: vec![], nodes: 0, assign_names: vec![], counter: 0, kinds_used: vec![] }
     }
 
     fn fresh(&mut self, prefix: &str) -> String {
@@ -171,6 +183,12 @@ impl<'a> Gen<'a> {
     }
 
     pub fn any(&mut self, depth: u32) -> Expr {
+        if self.knobs.assignments && !self.assign_names.is_empty() && self.r.chance(1, 12) {
+            // an assignment used as an expression: it binds and yields None
+            let names: Vec<String> = self.assign_names.clone();
+            let refs: Vec<&str> = names.iter().map(|s| s.as_str()).collect();
+            return self.assignment(&refs, depth.min(1));
+        }
         let ty = *self.r.pick(&[Ty::Int, Ty::Int, Ty::Bool, Ty::Str, Ty::ListInt, Ty::Num, Ty::Map]);
         self.expr(ty, depth)
     }
@@ -192,7 +210,14 @@ impl<'a> Gen<'a> {
             }
         }
         match ty {
-            Ty::Int | Ty::Num => lit_i(self.r.range(0, 12)),
+            Ty::Int => lit_i(self.r.range(0, 12)),
+            Ty::Num => {
+                if self.r.chance(1, 2) {
+                    Expr::Lit(Val::Num((*self.r.pick(FRACS)).to_string()))
+                } else {
+                    lit_i(self.r.range(0, 12))
+                }
+            }
             Ty::Bool => lit_b(self.r.chance(1, 2)),
             Ty::Str => lit_s(*self.r.pick(STRS)),
             Ty::ListInt => Expr::List((0..self.r.usize(3)).map(|_| lit_i(self.r.range(0, 5))).collect()),
@@ -229,8 +254,12 @@ impl<'a> Gen<'a> {
                 10 => bin("%", self.expr(Ty::Int, d), lit_i(self.r.range(1, 9))),
                 _ => self.leaf(Ty::Int),
             },
-            Ty::Num => match self.r.below(3) {
+            Ty::Num => match self.r.below(6) {
                 0 => bin("/", self.expr(Ty::Int, d), lit_i(*self.r.pick(&[1, 2, 4, 5, 8, 10]))),
+                1 => bin(*self.r.pick(&["+", "-"]), self.expr(Ty::Num, d), self.expr(Ty::Num, d)),
+                2 => bin("*", self.expr(Ty::Num, d), lit_i(self.r.range(0, 9))),
+                3 => bin("%", self.expr(Ty::Num, d), lit_i(self.r.range(1, 9))),
+                4 => self.leaf(Ty::Num),
                 _ => self.expr(Ty::Int, depth),
             },
             Ty::Bool => match self.r.below(10) {
@@ -289,6 +318,29 @@ impl<'a> Gen<'a> {
     /// one statement of a C06-style program
     pub fn statement(&mut self, names: &[&str], depth: u32) -> Expr {
         let ints: Vec<String> = self.vars.iter().filter(|(n, t)| *t == Ty::Int && names.contains(&n.as_str())).map(|(n, _)| n.clone()).collect();
+        let nums: Vec<String> = self.vars.iter().filter(|(n, t)| (*t == Ty::Num || *t == Ty::Int) && names.contains(&n.as_str())).map(|(n, _)| n.clone()).collect();
+        if !nums.is_empty() && self.r.chance(1, 8) {
+            // decimal compound forms on a (possibly fractional) number
+            let name = nums[self.r.usize(nums.len())].clone();
+            let op = *self.r.pick(&["+=", "-=", "*=", "/=", "%="]);
+            let rhs = match op {
+                "/=" => lit_i(*self.r.pick(&[1, 2, 4, 5])),
+                "%=" => if self.r.chance(1, 2) { lit_i(self.r.range(1, 9)) } else { Expr::Lit(Val::Num((*self.r.pick(FRACS)).to_string())) },
+                "*=" => self.leaf(Ty::Num),
+                _ => self.expr(Ty::Num, depth.min(1)),
+            };
+            self.set_var(&name, Ty::Num);
+            return bin(op, rf(&name), rhs);
+        }
+        if !ints.is_empty() && self.r.chance(1, 10) {
+            // the right side of a compound assignment rebinds its own target first
+            let name = ints[self.r.usize(ints.len())].clone();
+            let inner = bin("=", rf(&name), lit_i(self.r.range(10, 40)));
+            let a = lit_i(self.r.range(1, 9));
+            let b = lit_i(self.r.range(1, 9));
+            let rhs = tern(bin("==", inner, rf("unbound_name")), a, b);
+            return bin(*self.r.pick(&["+=", "-=", "*="]), rf(&name), rhs);
+        }
         match self.r.below(10) {
             0..=2 => self.assignment(names, depth),
             3..=5 if !ints.is_empty() => {
@@ -338,7 +390,7 @@ pub fn base_ctx(r: &mut Prng, names: &[&str]) -> CtxSpec {
     let mut vars = vec![];
     for n in names {
         if r.chance(1, 2) {
-            let ty = *r.pick(&[Ty::Int, Ty::Int, Ty::Bool, Ty::Str, Ty::ListInt]);
+            let ty = *r.pick(&[Ty::Int, Ty::Int, Ty::Bool, Ty::Str, Ty::ListInt, Ty::Num]);
             vars.push((n.to_string(), const_of(r, ty)));
         }
     }
